@@ -25,6 +25,10 @@ CLAIMED = {
     'C05': dict(ref='5 (C05)', tech=TECH, note=NOTE + ' Callee summaries (restriction halves exactly the pattern directions; residual/smoothing do not touch cycling state) are assumed here and discharged under C04/C01.',
                 text='Proof over all paths of _current_sc_dir/_current_lr_dir, _max_level (loop invariant with the spec function H), parameter '
                      'set-up, and multigrid (recursion invariant, V/W/F child-call structure, one generic fine-grid cycle): unbounded in shape, level and limits.'),
+    'C07': dict(ref='5 (C07)', tech=TECH, note=NOTE + ' The two linear solves and the finite-difference convergence are outside the proof (bounded concrete check); the adjoint-state formula follows from the proved blocks, C02 symmetry and C09 transposes as a paper lemma.',
+                text='Proof of the building blocks of the adjoint-state gradient: interp_edges_to_vol_averages is the exact transpose of the eta-derivative of the C02 operator (accumulation rule for a symbolic cell; derivative of the spec operator derived mechanically); '
+                     'the assembly in Simulation.gradient uses per source-frequency pair its own forward / back-propagated fields and a fresh zero buffer, accumulates every pair exactly once, collects the anisotropy rows according to the model aliasing and '
+                     'applies the chain factor of the mapping (C14 obligations re-run) after the sums, for all four anisotropy cases.'),
     'C09': dict(ref='5 (C09)', tech=TECH, note=NOTE + ' The linear SciPy interpolator is an assumed contract (bounded concrete check); reciprocity follows as a paper lemma from C02 symmetry and the transposes proved here; magnetic point source (discretize) and cubic interpolation not covered.',
                 text='Proof that point_source locates the unique bracketing cell and stores the product of the 1-D hat weights (all other cells zero) for a symbolic grid and position; that _edge_curl_factor is the '
                      'volume-weighted discrete Faraday law using the C02 curl stencil; that get_receiver combines the per-component interpolants with the same rotation() factors and masks exactly the outermost cells; '
